@@ -397,6 +397,6 @@ targets! {
     "C15":"accept" => c15::Accept,
     "C16":"commands" => c16::Commands, "C16":"outcomes" => c16::Outcomes,
     "C17":"startup" => c17::Startup,
-    "C18":"accuracy" => c18::Accuracy,
+    "C18":"accuracy" => c18::Accuracy, "C18":"unexpected" => c18u::Unexpected,
     "C19":"schedule" => c19::Sched,
 }
